@@ -409,6 +409,9 @@ func runC03(c *eng.Ctx) {
 		c.Check(eng.DominatedBy(mg, fl.Instr, []eng.Site{hk}, nil), "iterates-union", fl.Instr, mg, "the series iterated are those of the union bitmap", "")
 	})
 
+	// ---- one compaction job per family at a time ----------------------------------------------------------------------------------------
+	c.Rule("ATOMIC", "kv.family.compact{single flight}", func() { singleFlight(c, "kv.family.compacting", "kv.family.compact") })
+
 	// ---- a source block answers only for a field id it really holds --------------------------------------------------------------------
 	c.Rule("GUARD", "tsdb/tblstore/metricsdata.fieldReader.GetFieldData{only the requested field}", func() { fieldDataOnlyForHeldField(c) })
 
